@@ -10,13 +10,19 @@ of registration, worker dequeues, task completions with any result, `Stop` and `
 order in which a completing task sends its newly executable dependents to the channel.
 `s.log` is the history (newest event first).
 
-Granularity of the theorems `conflict_order` … `no_deadlock`: `Run` is atomic (it is only
-called from one goroutine and takes each predecessor's lock around every access) and the
-completion section of `runTask` is atomic (it runs under the task's lock).
-`conflict_order_fine_partial` is about the finer relation of `Model/ExecutorFine.lean`, in
-which one `Run` is split into its critical sections (header, one per key, final counter
-adjustment) and interleaved with dequeues and completion sections of other tasks — the
-"reader finishing while a writer enqueues" hand-off that relies on `maxDependencies`.
+Two relations:
+
+* The COARSE relation (`Model/Executor.lean`): `Run` is one step, dequeue + `err.Load` is one
+  step, and the end of a body + error CAS + all deregistrations + the notification section +
+  `outstanding.Done()` is one step. These merges are NOT justified by the locks of the code
+  (the deregistrations run under the *other* tasks' locks in separate regions, the CAS and the
+  `err.Load` are separate atomic operations) and no mover argument is given: the theorems
+  `conflict_order` … `no_deadlock` below are theorems about that coarse relation only.
+* The FINEST relation (`Model/ExecutorFine.lean`): one step per critical section / atomic
+  operation of `executor.go` (header / one step per key / counter adjustment of `Run`;
+  dequeue; `err.Load`; end of body + CAS; one step per reader deregistration; the notification
+  section; `Stop`; `Wait`), everything interleaved. The `…_fine` theorems are the property's
+  claims over that relation; what is merged there is listed in the header of the model file.
 -/
 namespace HyperModel.Props.C08
 open HyperModel.Executor
@@ -35,8 +41,7 @@ theorem no_overlap {w : Nat} {s : State} (hr : Reachable w s) {i j : Nat} (hij :
     (hi : s.status i = .running) : s.status j = .waiting := by
   have h := (full_reachable hr).inv
   rcases h.safe i j hij hj hc with a | a
-  · rw [executed_iff, hi] at a
-    rcases a with a | a <;> cases a
+  · unfold ended at a; rw [hi] at a; cases a
   · obtain ⟨x, hx⟩ := a.has_blocker
     exact (h.blk x j hx).2.2.2
 
@@ -164,10 +169,13 @@ theorem exists_min {P : Nat → Prop} [DecidablePred P] :
       subst hjm
       exact ⟨j, hj, hp, fun i hi hpi => hlow ⟨i, hi, hpi⟩⟩
 
-/-- No deadlock: in every reachable state in which `Wait` has not returned, with at least
-one worker, a step of the executor itself is enabled (a worker can dequeue, a running body
-can end, or `Wait` can return) — in particular all registered tasks get completed (run or
-skipped) and `Wait` returns. -/
+/-- No deadlock, COARSE relation only: in every reachable state in which `Wait` has not
+returned, with at least one worker, a step of the executor itself is enabled (a worker can
+dequeue, a running body can end, or `Wait` can return). Only "some step is enabled" is
+proved (no ranking argument that all tasks get completed), and the coarse relation has an
+unbounded channel and no `maxDependencies`, so the deadlock causes named in the code's
+comments are not reachable here; see `no_deadlock_fine` for the finest relation and its
+stated assumptions. -/
 theorem no_deadlock {w : Nat} {s : State} (hr : Reachable w s) (hw : 0 < w)
     (hwait : s.waited = none) : ∃ st, st ∈ enabled s ∧ isEnabled s st = true := by
   suffices h : ∃ st, st ∈ enabled s from by
@@ -223,6 +231,8 @@ theorem no_deadlock {w : Nat} {s : State} (hr : Reachable w s) (hw : 0 < w)
         | running => exact absurd ⟨j, hjn, hs⟩ hrun
         | done => exact absurd hs hje.1
         | skipped => exact absurd hs hje.2
+        | dequeued => exact absurd hs (h.lg.l_coarse j).1
+        | ending r => exact absurd hs ((h.lg.l_coarse j).2 r)
       have hmem : j ∈ s.queue := (h.q.q_iff j).mpr ⟨hjn, hq⟩
       have hnr : numRunning s = 0 := by
         unfold numRunning
@@ -237,19 +247,15 @@ theorem no_deadlock {w : Nat} {s : State} (hr : Reachable w s) (hw : 0 < w)
         · exact ⟨.start a, by simp [hlt, he]⟩
         · exact ⟨.skip a (ready s a), by simp [hlt, he]⟩
 
-/-- PARTIAL (finer relation). Full statement wanted: `conflict_order`, `exactly_once`,
-`skip_after_error`, `no_deadlock`, `wait_returns_first_error` over `ReachableF`. Proved here,
-for every reachable state of the finer relation (registration of a task interleaved key by
-key with dequeues and completions, any `maxDependencies` that bounds the number of
-dependencies of a task — the code's stated precondition, carried as the enabling condition of
-`runKey`): a task `j` that has left the waiting state (sent to the channel, running, or
-done) has every earlier conflicting task `i` completed; in particular two conflicting tasks
-are never running at the same time, and the task that is still being registered is never
-sent early. Missing: the history (log) formulation and the liveness/`Wait` theorems for the
-finer relation (they are proved for the coarse relation only). -/
-theorem conflict_order_fine_partial {w m : Nat} {fs : FState} (hr : ReachableF w m fs) {i j : Nat}
+/-! ## The finest relation (one step per critical section / atomic operation) -/
+
+/-- State form: in every reachable state of the finest relation, a task `j` that has left the
+waiting state (sent to the channel, dequeued, running, ending or done) has every earlier
+conflicting task `i` past the end of its body (or skipped); the task that is still being
+registered is waiting (never sent early). -/
+theorem conflict_order_fine_state {w m : Nat} {fs : FState} (hr : ReachableF w m fs) {i j : Nat}
     (hij : i < j) (hj : j < fs.s.n) (hc : conflictKeys (fs.s.keys i) (fs.s.keys j) = true) :
-    fs.s.status j = .waiting ∨ executed fs.s i = true := by
+    fs.s.status j = .waiting ∨ ended fs.s i = true := by
   have h := (finv_reachable hr).r
   have hblk := h.blk
   unfold RInv at h
@@ -269,14 +275,171 @@ theorem conflict_order_fine_partial {w m : Nat} {fs : FState} (hr : ReachableF w
       · exact Or.inr a
       · exact Or.inl (hchain a)
 
-/-- corollary: in the finer relation, too, conflicting tasks never run concurrently -/
-theorem no_overlap_fine_partial {w m : Nat} {fs : FState} (hr : ReachableF w m fs) {i j : Nat}
+/-- In the finest relation conflicting tasks never have their bodies in progress together. -/
+theorem no_overlap_fine {w m : Nat} {fs : FState} (hr : ReachableF w m fs) {i j : Nat}
     (hij : i < j) (hj : j < fs.s.n) (hc : conflictKeys (fs.s.keys i) (fs.s.keys j) = true)
     (hi : fs.s.status i = .running) : fs.s.status j = .waiting := by
-  rcases conflict_order_fine_partial hr hij hj hc with a | a
+  rcases conflict_order_fine_state hr hij hj hc with a | a
   · exact a
-  · rw [executed_iff, hi] at a
-    rcases a with a | a <;> cases a
+  · unfold ended at a; rw [hi] at a; cases a
+
+/-- `conflict_order` over the finest relation: whenever `j` has started (its `err.Load` saw no
+error), the end of the body of every earlier conflicting `i` is older in the history. -/
+theorem conflict_order_fine {w m : Nat} {fs : FState} (hr : ReachableF w m fs) {i j : Nat}
+    (hij : i < j) (hc : conflictKeys (fs.s.keys i) (fs.s.keys j) = true) {l1 l2 : List Event}
+    (hl : fs.s.log = l1 ++ Event.start j :: l2) : ∃ f, Event.fin i f ∈ l2 :=
+  ((finv2_reachable hr).lg.f_order l1 l2 j hl).2.2 i hij hc
+
+/-- `skip_after_error` over the finest relation, at its real granularity: a task whose
+`err.Load` happens after a failure or stop was recorded is skipped — no start event is newer
+than an error event. (A task whose `err.Load` came first may still run its body after another
+task's CAS; the code comment says so and the property does not forbid it.) -/
+theorem skip_after_error_fine {w m : Nat} {fs : FState} (hr : ReachableF w m fs) {j : Nat}
+    {l1 l2 : List Event} (hl : fs.s.log = l1 ++ Event.start j :: l2) : firstErr l2 = none :=
+  ((finv2_reachable hr).lg.f_order l1 l2 j hl).2.1
+
+/-- `exactly_once` over the finest relation. -/
+theorem exactly_once_fine {w m : Nat} {fs : FState} (hr : ReachableF w m fs) :
+    (∀ j, fs.s.log.count (.start j) ≤ 1) ∧
+    (fs.s.waited = some none → ∀ j, j < fs.s.n →
+      fs.s.log.count (.start j) = 1 ∧ ∃ f, Event.fin j f ∈ fs.s.log) := by
+  have h := finv2_reachable hr
+  constructor
+  · intro j; rw [h.lg.f_cnt j]; split <;> omega
+  · intro hw j hj
+    obtain ⟨he, _, hall⟩ := h.wt.w none hw
+    have hex := (allExecuted_iff fs.s).mp hall j hj
+    rw [executed_iff] at hex
+    rcases hex with a | a
+    · exact ⟨by rw [h.lg.f_cnt j, a]; simp [bodyStarted], h.lg.f_fin j (Or.inr a)⟩
+    · have := h.lg.f_skip j (Or.inr a)
+      rw [← he] at this; cases this
+
+/-- `wait_returns_first_error` over the finest relation. -/
+theorem wait_returns_first_error_fine {w m : Nat} {fs : FState} (hr : ReachableF w m fs)
+    {e : Option Err} (hw : fs.s.waited = some e) : e = firstErr fs.s.log := by
+  have h := finv2_reachable hr
+  rw [(h.wt.w e hw).1]
+  exact h.lg.f_err
+
+/-- steps of the executor's own goroutines and of the caller inside `Run`/`Wait` -/
+def isInternalF : FStep → Bool
+  | .runBegin _ => false
+  | .stop => false
+  | _ => true
+
+/-- No deadlock over the finest relation. ASSUMPTIONS (preconditions of `New`, not modelled
+as blocking): the channel has capacity for every task, so the sends of `runEnd`/`notify`
+(the latter under `t.l`) never block; and `maxDependencies` exceeds the number of
+dependencies of any task (enabling condition of `runKey`, here hypothesis `hmax`). Then in
+every reachable state in which `Wait` has not returned, with at least one worker, some step
+of a worker, of `Run` in progress, or `Wait`'s return is enabled. (Only "a step is enabled";
+that the enabled steps eventually complete every task is not proved — no ranking argument.) -/
+theorem no_deadlock_fine {w m : Nat} {fs : FState} (hr : ReachableF w m fs) (hw : 0 < w)
+    (hwait : fs.s.waited = none)
+    (hmax : ∀ r kr rest, fs.reg = some r → r.pending = kr :: rest →
+      (regKey r.t (fs.s, r.ds) kr).2.length < fs.maxDeps) :
+    ∃ st, isInternalF st = true ∧ isEnabledF fs st = true := by
+  have h := finv2_reachable hr
+  cases hreg : fs.reg with
+  | some r =>
+    cases hp : r.pending with
+    | nil => exact ⟨.runEnd, rfl, by simp [isEnabledF, hreg, hp]⟩
+    | cons kr rest =>
+      exact ⟨.runKey, rfl, by simp [isEnabledF, hreg, hp, hmax r kr rest hreg hp]⟩
+  | none =>
+    have hinv : Inv fs.s := by have := h.inv.r; unfold RInv at this; rw [hreg] at this; exact this
+    have hq := h.inv.q
+    have hworkers : fs.s.workers = w := by
+      clear hwait h hinv hq hmax hreg
+      induction hr with
+      | init => rfl
+      | @step fs st _ hen ih =>
+        cases st with
+        | runBegin ks => exact ih
+        | runKey =>
+          simp only [applyF]
+          cases hrg : fs.reg with
+          | none => simpa [hrg] using ih
+          | some r =>
+            cases hp : r.pending with
+            | nil => simpa [hrg, hp] using ih
+            | cons kr rest =>
+              simp only [hp]
+              rw [(regKey_same r.t (fs.s, r.ds) kr).workers]; exact ih
+        | runEnd =>
+          simp only [applyF]
+          cases hrg : fs.reg with
+          | none => simpa [hrg] using ih
+          | some r => simp only []; unfold endRun; dsimp only; split <;> exact ih
+        | dequeue j => exact ih
+        | check j => simp only [applyF]; split <;> exact ih
+        | finish j f => exact ih
+        | dereg j o => exact ih
+        | notify j o => simp only [applyF]; split <;> exact ih
+        | stop => exact ih
+        | wait => exact ih
+    by_cases hall : allExecuted fs.s = true
+    · exact ⟨.wait, rfl, by simp [isEnabledF, hreg, hwait, hall]⟩
+    · have hex : ∃ j, j < fs.s.n ∧ executed fs.s j = false := by
+        rw [allExecuted_iff] at hall
+        apply Classical.byContradiction
+        intro hne
+        apply hall
+        intro x hx
+        cases hxe : executed fs.s x with
+        | true => rfl
+        | false => exact absurd ⟨x, hx, hxe⟩ hne
+      obtain ⟨j, hjn, hje, hmin⟩ := exists_min fs.s.n hex
+      have hnotw : fs.s.status j ≠ .waiting := by
+        intro hwj
+        obtain ⟨_, hpos⟩ := hinv.cnt j hjn hwj
+        unfold cnt at hpos
+        obtain ⟨d, _, hd⟩ := List.countP_pos_iff.mp hpos
+        obtain ⟨hdj, _, hde, _⟩ := hinv.blk d j hd
+        exact hmin d hdj hde
+      -- a task in the hands of a worker can always take its next step
+      by_cases hmid : ∃ x, x < fs.s.n ∧ (fs.s.status x = .dequeued ∨ fs.s.status x = .running ∨
+          ∃ r, fs.s.status x = .ending r)
+      · obtain ⟨x, hxn, hx⟩ := hmid
+        rcases hx with hx | hx | ⟨r, hx⟩
+        · exact ⟨.check x, rfl, by simp [isEnabledF, hxn, hx]⟩
+        · exact ⟨.finish x false, rfl, by simp [isEnabledF, hxn, hx]⟩
+        · cases hrd : fs.s.reading x with
+          | nil =>
+            exact ⟨.notify x (ready fs.s x), rfl,
+              by simp [isEnabledF, hxn, hx, hrd, isArrangement, List.isPerm_iff]⟩
+          | cons o rest =>
+            exact ⟨.dereg x o, rfl, by simp [isEnabledF, hxn, hx, hrd]⟩
+      · -- nobody is held by a worker: j is queued and a worker is free
+        have hq' : fs.s.status j = .queued := by
+          rw [executed_false_iff] at hje
+          cases hs : fs.s.status j with
+          | waiting => exact absurd hs hnotw
+          | queued => rfl
+          | dequeued => exact absurd ⟨j, hjn, Or.inl hs⟩ hmid
+          | running => exact absurd ⟨j, hjn, Or.inr (Or.inl hs)⟩ hmid
+          | ending r => exact absurd ⟨j, hjn, Or.inr (Or.inr ⟨r, hs⟩)⟩ hmid
+          | done => exact absurd hs hje.1
+          | skipped => exact absurd hs hje.2
+        have hmem : j ∈ fs.s.queue := (hq.q_iff j).mpr ⟨hjn, hq'⟩
+        have hnb : numBusy fs.s = 0 := by
+          unfold numBusy
+          rw [List.length_eq_zero_iff, List.filter_eq_nil_iff]
+          intro x hx hxx
+          have hxn := List.mem_range.mp hx
+          cases hs : fs.s.status x with
+          | dequeued => exact hmid ⟨x, hxn, Or.inl hs⟩
+          | running => exact hmid ⟨x, hxn, Or.inr (Or.inl hs)⟩
+          | ending r => exact hmid ⟨x, hxn, Or.inr (Or.inr ⟨r, hs⟩)⟩
+          | waiting => rw [hs] at hxx; simp at hxx
+          | queued => rw [hs] at hxx; simp at hxx
+          | done => rw [hs] at hxx; simp at hxx
+          | skipped => rw [hs] at hxx; simp at hxx
+        cases hqq : fs.s.queue with
+        | nil => rw [hqq] at hmem; cases hmem
+        | cons a rest =>
+          exact ⟨.dequeue a, rfl, by simp [isEnabledF, hwait, hqq, hnb, hworkers, hw]⟩
 
 /-! Non-vacuity: the hypotheses of `conflict_order` are satisfiable — two writers of key 0
 run one after the other on one worker. -/
@@ -329,13 +492,19 @@ example : (match runTrace (init 2) postErrorTrace with
         s.log == [.skip 3, .skip 2, .skip 1, .fin 0 true, .start 0]
     | none => false) = true := by decide
 
-/-- Non-vacuity for the finer relation: task 0 writes key 0, task 1 reads it, task 2 (writer of
-keys 0 and 1) is registered while task 0 ends and task 1 runs and ends between its two
-per-key sections (a reader finishing while a writer enqueues); task 2 then runs last. -/
+/-- Non-vacuity for the finest relation: task 0 writes key 0, task 1 reads it; task 2 (writer
+of keys 1 and 0) is registered while task 1 is between its deregistration from task 0 and its
+notification section (a reader finishing while a writer enqueues): task 2 does not wait for
+task 1's notification, only for the end of its body. -/
 def fineTrace : List FStep :=
-  [.runBegin [⟨0, false⟩], .runKey, .runEnd, .runBegin [⟨0, true⟩], .runKey, .runEnd, .start 0,
-   .runBegin [⟨1, false⟩, ⟨0, false⟩], .runKey, .finish 0 false [1], .start 1, .runKey,
-   .finish 1 false [], .runEnd, .start 2, .finish 2 false [], .wait]
+  [.runBegin [⟨0, false⟩], .runKey, .runEnd, .runBegin [⟨0, true⟩], .runKey, .runEnd,
+   .dequeue 0, .check 0, .finish 0 false, .notify 0 [1],
+   .dequeue 1, .check 1,
+   .runBegin [⟨1, false⟩, ⟨0, false⟩], .runKey,
+   .finish 1 false, .dereg 1 0,          -- reader 1 has left task 0's readers, not yet notified
+   .runKey, .runEnd,                     -- writer 2 registers on key 0 now: not blocked on 1
+   .dequeue 2, .check 2,                 -- and may start before task 1's notification section
+   .notify 1 [], .finish 2 false, .notify 2 [], .wait]
 
 def runTraceF (fs : FState) : List FStep → Option FState
   | [] => some fs
